@@ -129,6 +129,34 @@ def rule_bp(ctx, rep):
             rep.check(lockset.SIGBLOCKED in must.get(s_.id, ()), "C19.bp", "%s.tls-update-blocked@%d" % (name, s_.line), "the TLS reader pointer is updated with all signals blocked",
                       "URCU_TLS(urcu_bp_reader) is written with signals unblocked: a handler running in between sees a pointer that disagrees with the registry "
                       "(stale slot no grace period scans, or double registration)", [s_.where()])
+        # the set that is blocked is *all* signals, built right here: a thread-local object filled by a sigfillset() that dominates the
+        # call - not a shared object whose content depends on some initialiser having already run on this path
+        for c in pat.calls(f, "pthread_sigmask"):
+            if ir.const_of(f, c.args[0]) != 0 or ir.const_of(f, c.args[1]) == 0:
+                continue
+            n += 1
+            ap = c.d["aps"][1]
+            inst = "%s.blocks-full-local-set@%d" % (name, c.line)
+            if ap is None:
+                rep.unk("C19.bp", inst, "cannot tell which set is blocked")
+                continue
+            if pat.base_global(ap):
+                fills = [x for fn_ in m.defined() for x in fn_.calls("sigfillset") if x.d["aps"][0] and pat.base_global(x.d["aps"][0]) == pat.base_global(ap) and f.name == fn_.name and f.dominates(x, c)]
+                rep.check(bool(fills), "C19.bp", inst, "blocks a set filled on this very path",
+                          "blocks the shared object %s, which no sigfillset() on this path fills: when the path runs before the initialiser that fills it (a thread "
+                          "registering from a constructor, or a fork hook before the first registration) the set is empty, no signal is blocked, and a handler's "
+                          "rcu_read_lock() re-enters the registry lock" % pat.base_global(ap), [c.where()])
+                continue
+            fills = [x for x in f.calls("sigfillset") if x.d["aps"][0] and x.d["aps"][0]["base"] == ap["base"] and x.d["aps"][0]["steps"] == ap["steps"] and f.dominates(x, c)]
+            empt = [x for x in f.all_insts() if x.op == "call" and x.callee in ("sigemptyset", "sigdelset") and x.d["aps"][0] and x.d["aps"][0]["base"] == ap["base"]]
+            if fills and not empt:
+                rep.ok("C19.bp", inst, "blocks a local set filled by a dominating sigfillset()")
+            elif not fills and ap["base"][0] == "i" and not any(x.op == "call" and x.d.get("aps") and any(a and a["base"] == ap["base"] for a in x.d["aps"]) for x in f.all_insts() if x.id != c.id):
+                rep.bad("C19.bp", inst, "blocks a local set nothing fills: the set of signals blocked around the registry lock is indeterminate", [c.where()])
+            elif empt:
+                rep.bad("C19.bp", inst, "the set blocked around the registry/gp lock has signals removed (%s): a handler for such a signal still runs inside the critical section" % empt[0].callee, [empt[0].where(), c.where()])
+            else:
+                rep.unk("C19.bp", inst, "the set blocked is not filled by a dominating sigfillset() in this function")
         for c in pat.calls(f, "pthread_sigmask"):
             if ir.const_of(f, c.args[0]) == 2:
                 held = [x for x in may.get(c.id, ()) if x in ("@rcu_registry_lock", "@rcu_gp_lock") or (name == "urcu_bp_register" and x != lockset.SIGBLOCKED)]
